@@ -33,18 +33,18 @@ DIAGNOSTIC = {"ParseError", "MultipleSpansParseError", "VerifyException", "Diagn
 INVARIANTS: list[tuple[str, str, str, str]] = [
     ("ForwardDeclaredValue.owner", "raise", r"raise ValueError", "API guard; the parser never reads `.owner` of a forward-declared value (checked: no `.owner` load in xdsl/parser)"),
     ("AttrParser._parse_dialect_type_or_attribute_body", "raise", r"raise TypeError", "registry invariant: a registered attribute class is a ParametrizedAttribute or a Data subclass"),
-    ("AttrParser._parse_unregistered_attr_body", "assert", r"assert body is not None", "slice between two token positions of the same input is always in range"),
-    ("AttrParser.parse_dense_int_or_fp_elements_attr", "assert", r"assert len\(data_values\) == 1", "an unshaped tensor literal is a single element by construction of _parse_tensor_literal"),
+    ("AttrParser._parse_unregistered_attr_body", "assert", r"assert \w+ is not None", "slice between two token positions of the same input is always in range"),
+    ("AttrParser.parse_dense_int_or_fp_elements_attr", "assert", r"assert len\(\w+\) == 1", "an unshaped tensor literal is a single element by construction of _parse_tensor_literal"),
     ("AttrParser._TensorLiteralElement.to_complex", "raise", r"raise NotImplementedError", "ComplexType only admits float or integer element types (rejected with a diagnostic when the type is parsed)"),
-    ("AttrParser.parse_optional_symbol_name", "assert", r"assert len\(token\.text\) > 1", "an AT_IDENT token is '@' followed by at least one character (lexer raises ParseError otherwise)"),
-    ("AttrParser.parse_optional_builtin_int_or_float_attr", "assert", r"assert isinstance\(value, int\)", "is_hexadecimal_token is only set for INTEGER_LIT tokens"),
-    ("AttrParser.parse_optional_builtin_int_or_float_attr", "next", r"next\(type\.iter_unpack\(raw\)\)", "raw has exactly compile_time_size bytes, so exactly one element is unpacked"),
-    ("AttrParser.parse_optional_builtin_int_or_float_attr", "iter_unpack", r"type\.iter_unpack\(raw\)", "raw has exactly compile_time_size bytes"),
-    ("AttrParser._parse_optional_integer_or_float_type", "int()", r"int\(match\.group\(1\)\)", "group 1 of the type regex is \\d+; int() accepts every Unicode decimal digit"),
+    ("AttrParser.parse_optional_symbol_name", "assert", r"assert len\(\w+\.text\) > 1", "an AT_IDENT token is '@' followed by at least one character (lexer raises ParseError otherwise)"),
+    ("AttrParser.parse_optional_builtin_int_or_float_attr", "assert", r"assert isinstance\(\w+, int\)", "is_hexadecimal_token is only set for INTEGER_LIT tokens"),
+    ("AttrParser.parse_optional_builtin_int_or_float_attr", "next", r"next\(\w+\.iter_unpack\(\w+\)\)", "raw has exactly compile_time_size bytes, so exactly one element is unpacked"),
+    ("AttrParser.parse_optional_builtin_int_or_float_attr", "iter_unpack", r"\w+\.iter_unpack\(\w+\)", "raw has exactly compile_time_size bytes"),
+    ("AttrParser._parse_optional_integer_or_float_type", "int()", r"int\(\w+\.group\(1\)\)", "group 1 of the type regex is \\d+; int() accepts every Unicode decimal digit"),
     ("BaseParser.parse_optional_punctuation", "assert", r"assert MLIRTokenKind\.is_spelling_of_punctuation", "precondition on a parameter that is a string constant at the call sites"),
     ("BaseParser.parse_punctuation", "assert", r"assert MLIRTokenKind\.is_spelling_of_punctuation", "precondition on a parameter that is a string constant at the call sites"),
     ("GenericParser.raise_error", "assert", r"assert isinstance\(at_position, Position\)", "type narrowing of a parameter union"),
-    ("GenericParser._consume_token", "assert", r"assert expected_kind is None or consumed_token\.kind == expected_kind", "callers check the kind first; each call site with an explicit kind is checked separately by rule C07.R3d"),
+    ("GenericParser._consume_token", "assert", r"assert expected_kind is None or \w+\.kind == expected_kind", "callers check the kind first; each call site with an explicit kind is checked separately by rule C07.R3d"),
     ("GenericParser.parse_optional_comma_separated_list", "raise", r"raise ValueError\('Cannot use `Delimiter\.NONE`", "API misuse guard on a parameter"),
     ("MLIRTokenKind.get_punctuation_kind_from_name", "assert", r"assert MLIRTokenKind\.is_spelling_of_punctuation", "precondition on a parameter"),
     ("MLIRTokenKind.get_int_value", "raise", r"raise ValueError\('Token is not an integer literal", "kind precondition: callers only pass INTEGER_LIT tokens"),
@@ -54,8 +54,8 @@ INVARIANTS: list[tuple[str, str, str, str]] = [
     ("MLIRLexer._lex_prefixed_ident", "assert", r"assert \w+ == '%'", "lex() dispatches here only for '#', '!', '^', '%'"),
     ("Lexer.lex", "raise", r"raise NotImplementedError\(\)", "abstract method, overridden by MLIRLexer"),
     ("AttrParser._TensorLiteralElement.to_complex", "int()", r"int\(self\.value\[[01]\]\)", "components of a parsed complex literal are bool/int/float"),
-    ("StringLiteral.bytes_contents", "int()", r"int\(hex_contents, 16\)", "guarded by all(c in hexdigits ...) on the same two characters"),
-    ("StringLiteral.bytes_contents", "to_bytes", r"int\(hex_contents, 16\)\.to_bytes\(1, 'big'\)", "two hex digits fit one byte"),
+    ("StringLiteral.bytes_contents", "int()", r"int\(\w+, 16\)", "guarded by all(c in hexdigits ...) on the same two characters"),
+    ("StringLiteral.bytes_contents", "to_bytes", r"int\(\w+, 16\)\.to_bytes\(1, 'big'\)", "two hex digits fit one byte"),
     ("StringLiteral.string_contents", "decode", r"self\.bytes_contents\.decode\(\)", "total on literals the lexer classified as STRING_LIT; every caller in the parsers is checked by rule C07.R3e (decode-unclassified-literal)"),
     ("MLIRTokenKind.get_int_value", "int()", r"int\(span\.text, 1[06]\)", "INTEGER_LIT text is [0-9]+ or 0x[0-9a-fA-F]+ once the digit dispatch of the lexer is ASCII-only (rule C07.R2)"),
     ("MLIRTokenKind.get_float_value", "float()", r"float\(span\.text\)", "FLOAT_LIT text matches the lexer's decimal float grammar once the digit dispatch is ASCII-only (rule C07.R2)"),
@@ -599,6 +599,12 @@ def check_raw_indexing(idx: Index, rep: Report) -> None:
     n = 0
     for rel in PARSER_MODULES:
         for f in raw_funcs(idx.module(rel)):
+            # local aliases of the buffer and of its length in this function (whatever they are called)
+            buf_alias = {s_.targets[0].id for s_ in walk_local(f.node) if isinstance(s_, ast.Assign) and len(s_.targets) == 1 and isinstance(s_.targets[0], ast.Name) and re.fullmatch(r"(self\.content|(\w+\.)*input\.content)", unparse(s_.value))}
+            buf_re = "|".join(["self\\.content", "(?:\\w+\\.)*input\\.content"] + sorted(re.escape(a_) for a_ in buf_alias | {"content"}))
+            BUFFER = re.compile(rf"^({buf_re})$")
+            len_alias = {s_.targets[0].id for s_ in walk_local(f.node) if isinstance(s_, ast.Assign) and len(s_.targets) == 1 and isinstance(s_.targets[0], ast.Name) and re.fullmatch(rf"(self\.len|(\w+\.)*input\.len|len\((?:{buf_re})\))", unparse(s_.value))}
+            LENGTH = "(?:" + "|".join(["self\\.len", "(?:\\w+\\.)*input\\.len", rf"len\((?:{buf_re})\)"] + sorted(re.escape(a_) for a_ in len_alias | {"length"})) + ")"
             subs = [x for x in walk_local(f.node) if isinstance(x, ast.Subscript) and isinstance(x.ctx, ast.Load) and not isinstance(x.slice, ast.Slice) and BUFFER.match(unparse(x.value)) and not isinstance(x.slice, ast.Constant)]
             if not subs:
                 continue
